@@ -71,9 +71,8 @@ def work_init(init):
     logging.disable(logging.CRITICAL)
     import tempfile
     import sharepoint2text  # noqa
-    from vlib import obs
-    for k in corpus.KINDS:
-        obs.extractor(k)
+    # deliberately NO pre-import of the extractor modules here: the router imports them lazily, and import-time side effects
+    # (registries, codecs, monkey patches) are exactly the kind of history a result must not depend on
     d = tempfile.mkdtemp(prefix="verif-c15-")
     os.environ["TMPDIR"] = d
     os.environ["VERIF_PRIVATE_TMP"] = "1"
@@ -302,7 +301,9 @@ def main(run):
     rng = run.rng
     sources = corpus.all_sources(n_gen=3, base_seed=run.seed * 1000)
     pdfs = [("pdf", s) for s in sources.get("pdf", []) if s[0] == "gen" or "large_table" not in s[1]]
-    others = [(k, s) for k in ("docx", "xlsx", "zip", "html", "odt", "rtf", "eml") for s in sources.get(k, [])[:2]]
+    others = [(k, s) for k in ("docx", "xlsx", "zip", "html", "odt", "rtf", "eml", "mbox", "msg", "mhtml") for s in sources.get(k, [])[:2]]
+    # inputs whose result could depend on process-global registries (codecs, mimetypes): HTML in unusual declared charsets
+    others += [("html", s) for s in sources.get("html", []) if s[0] == "htmlcs"]
     cases = [
         {"part": "scheduler", "threads": 2, "seed": run.seed},
         {"part": "scheduler", "threads": 3, "seed": run.seed, "preemption_bound": run.n(2, 3), "max_schedules": run.n(500, 40000), "random_schedules": run.n(150, 5000)},
